@@ -146,6 +146,10 @@ type RIB struct {
 	// can be fully resolved in the RIB. In the current implementation it
 	// is called only for IPv4 entries.
 	resolvedEntryHook ResolvedEntryFn
+
+	// postChangeHook is the hook supplied to SetPostChangeHook, it is stored such
+	// that network instances that are created later are also assigned it.
+	postChangeHook RIBHookFn
 }
 
 // RIBHolder is a container for a set of RIBs.
@@ -339,6 +343,10 @@ type pendingEntry struct {
 // SetPostChangeHook assigns the supplied hook to all network instance RIBs within
 // the RIB structure.
 func (r *RIB) SetPostChangeHook(fn RIBHookFn) {
+	// The lock is not held whilst the per-network instance locks are taken below.
+	r.nrMu.Lock()
+	r.postChangeHook = fn
+	r.nrMu.Unlock()
 	for _, nir := range r.niRIB {
 		nir.mu.Lock()
 		nir.postChangeHook = fn
@@ -379,6 +387,7 @@ func (r *RIB) AddNetworkInstance(name string) error {
 	}
 
 	r.niRIB[name] = NewRIBHolder(name, rhOpt...)
+	r.niRIB[name].postChangeHook = r.postChangeHook
 	return nil
 }
 
